@@ -56,3 +56,22 @@ func (e *Event) Format(formatType string) ([]byte, bool) {
 	v, ok := e.Formatted[formatType]
 	return v, ok
 }
+
+// clone returns a new Event with the same Type, CreatedAt and Payload, and its
+// own copy of the formatted values.
+func (e *Event) clone() *Event {
+	e.l.RLock()
+	defer e.l.RUnlock()
+
+	formatted := make(map[string][]byte, len(e.Formatted))
+	for k, v := range e.Formatted {
+		formatted[k] = v
+	}
+
+	return &Event{
+		Type:      e.Type,
+		CreatedAt: e.CreatedAt,
+		Formatted: formatted,
+		Payload:   e.Payload,
+	}
+}
